@@ -164,7 +164,8 @@ def gen_transformation(rng, labels):
     if k == 4:
         return 'modify bond (%s, %s, %s)' % (a, b, rng.choice(BONDS))
     if k == 5:
-        return 'modify atomtype (%s, %s)' % (a, gen_atomtype(rng, False))
+        return 'modify atomtype (%s, %s)' % (a, gen_atomtype(
+            rng, rng.random() < 0.3))
     if k == 6:
         return 'modify number of radical (%s, %d)' % (a, rng.randrange(4))
     if k == 7:
@@ -190,17 +191,47 @@ def gen_rule_constraints(rng):
 
 
 def gen_rule(rng, max_atoms=4, layout=True):
-    n = rng.randrange(1, max_atoms + 1)
-    body, labels = gen_molquery(rng, n, layout)
+    nreact = 1 if rng.random() < 0.7 else 2
+    labels = []
+    s = 'rule ' + rng.choice(['a', 'CH_scission', 'r_1']) + '{'
+    names = []
+    for ri in range(nreact):
+        name = 'r%d' % (ri + 1)
+        if ri and rng.random() < 0.25:
+            name = names[0]                  # the same reactant name twice
+        kind = rng.random()
+        if ri and kind < 0.2 and labels:
+            # duplicate of an earlier reactant with a label mapping
+            mp = ', '.join('%s => d%d' % (l, i + 1)
+                           for i, l in enumerate(labels))
+            if rng.random() < 0.3 and ', ' in mp:
+                mp = mp.rsplit(', ', 1)[0]   # incomplete mapping
+            s += _ws(rng, layout) + 'reactant %s duplicates %s (%s)' % (
+                name, names[0], mp)
+            labels = labels + ['d%d' % (i + 1) for i in range(len(labels))]
+        elif kind < 0.3:
+            s += _ws(rng, layout) + 'reactant %s group %s (g1 => e1, g2 => e2)' \
+                % (name, rng.choice(['alkyl', 'g1']))
+            labels = labels + ['e1', 'e2']
+        else:
+            n = rng.randrange(1, max_atoms + 1)
+            body, labs = gen_molquery(rng, n, layout)
+            if ri:
+                # distinct labels for the second reactant (usually)
+                if rng.random() < 0.8:
+                    for l in sorted(set(labs), key=len, reverse=True):
+                        body = re.sub(r'\b%s\b' % re.escape(l), 'q' + l, body)
+                    labs = ['q' + l for l in labs]
+            s += _ws(rng, layout) + gen_prefix(rng) + 'reactant %s{' % name \
+                + _ws(rng, layout) + body + '}'
+            labels = labels + labs
+        names.append(name)
     if rng.random() < 0.1:
         labels = labels + ['zz9']
-    s = 'rule ' + rng.choice(['a', 'CH_scission', 'r_1']) + '{' \
-        + _ws(rng, layout) + gen_prefix(rng) + 'reactant r1{' \
-        + _ws(rng, layout) + body + '}'
     if rng.random() < 0.2:
         s += _ws(rng, layout) + gen_rule_constraints(rng)
     for _ in range(rng.randrange(1, 4)):
-        s += _ws(rng, layout) + gen_transformation(rng, labels)
+        s += _ws(rng, layout) + gen_transformation(rng, labels or ['c1'])
     return s + _ws(rng, layout) * (rng.random() < 0.5) + '}'
 
 
